@@ -275,4 +275,6 @@ def rule_raw_rows_dispatch(ctx):
     raw_rows_dispatch_table(ctx, "O13.7")
 
 
-RULES = [rule_fixed_rows, rule_structure, rule_raw_rows_dispatch]
+from .common import rule_module_state  # noqa: E402
+
+RULES = [rule_fixed_rows, rule_structure, rule_raw_rows_dispatch, rule_module_state]
